@@ -101,8 +101,10 @@ retry:
 				goto retry
 			}
 		case '\\':
-			if p.r == '\\' {
-			} else if p.peek() == '\n' {
+			if p.r == '\\' && !p.escapedBslash {
+				// Escaped by the previous backslash, so it escapes nothing itself.
+				p.escapedBslash = true
+			} else if p.escapedBslash = false; p.peek() == '\n' {
 				p.bsp++
 				p.w, p.r = 1, escNewl
 				return escNewl
